@@ -390,6 +390,36 @@ impl Display for RE {
     }
 }
 
+/// Verification hooks (compiled only with `--cfg aws_smt_strings_verif`): expose the unique id
+/// and a structural dump of a term so that an external model can be compared with it.
+#[cfg(aws_smt_strings_verif)]
+impl RE {
+    /// unique id of this term
+    pub fn verif_id(&self) -> usize {
+        self.id
+    }
+
+    /// structural dump: constructor, id, character range or loop range, children in stored order
+    pub fn verif_dump(&self) -> String {
+        fn list(l: &[&RE]) -> String {
+            l.iter().map(|x| x.verif_dump()).collect::<Vec<_>>().join(",")
+        }
+        let i = self.id;
+        match &self.expr {
+            BaseRegLan::Empty => format!("E{}", i),
+            BaseRegLan::Epsilon => format!("e{}", i),
+            BaseRegLan::Range(c) => format!("R{}[{},{}]", i, c.pick(), c.pick() + (c.size() - 1)),
+            BaseRegLan::Concat(a, b) => format!("C{}({},{})", i, a.verif_dump(), b.verif_dump()),
+            BaseRegLan::Loop(a, r) => {
+                format!("L{}{{{}}}({})", i, format!("{:?}", r).replace(' ', ""), a.verif_dump())
+            }
+            BaseRegLan::Complement(a) => format!("N{}({})", i, a.verif_dump()),
+            BaseRegLan::Union(l) => format!("U{}({})", i, list(l)),
+            BaseRegLan::Inter(l) => format!("I{}({})", i, list(l)),
+        }
+    }
+}
+
 impl RE {
     /// check whether the complementary class is empty
     pub fn empty_complement(&self) -> bool {
